@@ -134,7 +134,7 @@ CHECKS = [
      "design_ref": "4/C09", "note": SIM_NOTE + "; the oracle is a relation between two chip snapshots, no model of the individual setters is needed",
      "technique": "property-based testing: enumerated class-pair/call combinations + Hypothesis-generated multi-object with-block interleavings, metamorphic snapshot-equality oracle"},
     {"property_id": "C10", "level": "exploration",
-     "text": "every word of 3 (quick) / 4 (thorough) traffic and mutator ops over a 16-symbol alphabet in every payload mode, "
+     "text": "every word of 3 (quick) / 4 (thorough) traffic and mutator ops over a 17-symbol alphabet in every payload mode, "
              "followed by an accessor tail (exhaustive), and Hypothesis op lists mixing traffic (peer sends to any pipe, write/CE/send to listening, absent or ACK-payload peers, "
              "load_ack, role toggles) with every accessor in all its argument forms, in dynamic / static per-pipe / mixed payload "
              "modes; each accessor is compared with the simulated chip's FIFOs, latched flags, STATUS byte of the last "
@@ -162,7 +162,7 @@ CHECKS = [
      "design_ref": "4/C03", "note": SIM_NOTE + "; vlib/ref/regs.py is the specification of the documented encodings",
      "technique": "model-based property testing: bounded-exhaustive call pairs/triples + Hypothesis call sequences vs register reference model"},
     {"property_id": "C08", "level": "exploration",
-     "text": "breadth-first enumeration of every call sequence to depth 4 (quick) / 5-6 (thorough) over a 16-symbol alphabet of "
+     "text": "breadth-first enumeration of every call sequence to depth 4 (quick) / 5-6 (thorough) over a 17-symbol alphabet of "
              "pipe-0 opens/closes, open_tx_pipe, auto-ack changes and listen toggles for address widths 3..5, Hypothesis "
              "sequences to length 40 beyond; registers after every call are compared with the reference model of the user's "
              "pipe 0, CE/role-change discipline is read from the chip trace, and each sequence ends with a behavioural probe "
